@@ -192,6 +192,9 @@ def path_canon(e, ren=None):
 _LITRX = re.compile(r"^(-?\d+|MAX|true|false|'.*'|b'.*'|\".*\")$")
 
 
+_CHECKED = {"checked_mul": "Mul", "checked_add": "Add", "checked_sub": "Sub"}
+
+
 def _ckey(s):
     """Ordering of commutative operands: literals first, then lexicographic."""
     return (0 if _LITRX.match(s) else 1, s)
@@ -268,6 +271,11 @@ def canon(e, ren=None):
     if k == "AssignOp":
         return "%s %s= %s" % (c(e["l"]), OPSYM.get(e["op"].replace("Assign", ""), e["op"]), c(e["r"]))
     if k == "Try":
+        inner = peel(e["e"])
+        if inner.get("k") == "MethodCall" and inner.get("name") in _CHECKED and len(inner.get("args") or []) == 1:
+            # `a.checked_mul(b)?` is `a * b` on the path where the `?` does not leave (the overflow case is the
+            # try-err path of the enumeration)
+            return c({"k": "Binary", "op": _CHECKED[inner["name"]], "l": inner["recv"], "r": inner["args"][0]})
         return "%s?" % c(e["e"])
     if k == "Ret":
         return "return %s" % c(e.get("e"))
@@ -345,6 +353,10 @@ def linear(e, ren=None):
         return ({kk: v * m for kk, v in a[0].items() if v * m != 0}, a[1] * m)
     if k == "Cast":
         return linear(e["e"], ren)
+    if k == "Try":
+        inner = peel(e["e"])
+        if inner.get("k") == "MethodCall" and inner.get("name") in _CHECKED and len(inner.get("args") or []) == 1:
+            return linear({"k": "Binary", "op": _CHECKED[inner["name"]], "l": inner["recv"], "r": inner["args"][0]}, ren)
     return ({canon(e, ren): 1}, 0)
 
 
@@ -534,7 +546,11 @@ class Enumerator:
             if o.exit != "fall":
                 res.append(o)
                 continue
-            res.append(PathOut(o.events + [Ev("try-ok", o.val, node=e)], "fall", o.val + "?", valnode=e))
+            v = o.val + "?"
+            inner = peel(e["e"])
+            if inner.get("k") == "MethodCall" and inner.get("name") in _CHECKED and len(inner.get("args") or []) == 1:
+                v = self.c(e)
+            res.append(PathOut(o.events + [Ev("try-ok", o.val, node=e)], "fall", v, valnode=e))
             res.append(PathOut(o.events + [Ev("try-err", o.val, node=e)], "try-err", o.val))
         return res
 
